@@ -9,6 +9,7 @@ P = "Minicbor.C18."
 REQUIRED = [P + n for n in """interop_bytes natDec_eq_de interop_decode_agree interop_decode_canonical
 native_roundtrip array_reframing_example""".split()]
 PACKAGES = ["hserde"]
+DEBUG_TWINS = True
 RULE = ("iser <type> <value>: 43 shared types (ints, bool, char, floats, strings, unit, Option, Vec, fixed arrays, tuples, BTreeMap and "
         "compositions) x type-directed boundary values; oracle in the orchestrator: minicbor::to_vec bytes == minicbor_serde::to_vec bytes "
         "(== the orchestrator's own encoding).  ide <type> <hex>: the canonical bytes and re-framings (wider heads, indefinite containers, "
